@@ -377,8 +377,8 @@ func runC12ParallelCheck(rc *RunCtx) {
 	work := time.Duration(1+ch.Intn("work", 40000)) * time.Microsecond
 	reacts := ch.Intn("reacts", 2) == 1
 	retErr := ch.Intn("reterr", 2) == 1
-	for failAt > 0 && work == time.Duration(failAt-1)*period {
-		work++
+	if work%period == 0 {
+		work++ // the end of the work never ties with a check instant (the Go runtime would decide the order)
 	}
 	res.Config = fmt.Sprintf("runner=ParallelCheck period=%v failAtCheck=%d work=%v reacts=%v reterr=%v", period, failAt, work, reacts, retErr)
 	errAction := errors.New("action failed")
@@ -435,7 +435,7 @@ func runC12ParallelCheck(rc *RunCtx) {
 	if cls != want || runReturn != wantReturn || actReturn != runReturn {
 		res.Violate("wrong-result", "parallel-check|"+want, fmt.Sprintf("%s: got %q (%v) at %v (action returned at %v), want %q at %v", res.Config, cls, runErr, runReturn, actReturn, want, wantReturn))
 	}
-	res.Digest = hashStrings(res.Config, cls, fmt.Sprint(runReturn, actReturn, checks))
+	res.Digest = hashStrings(res.Config, cls, fmt.Sprint(runReturn, actReturn))
 	if rc.KeepTrace {
 		res.Trace = []string{res.Config, fmt.Sprintf("returned %q at %v after %d checks", cls, runReturn, checks)}
 	}
